@@ -133,7 +133,7 @@ func (o *diffOracle) OnWrite(s *Sim, w *Write) {
 	for _, gk := range o.tr.gatewayKeys() {
 		live := s.Store.Peek(gk)
 		fresh := scratch.Store.Peek(gk)
-		if d := o.differ(live, fresh); d != "" {
+		if d := o.differ(live, fresh, strategy.Matches); d != "" {
 			s.Violate(prop, "H1-history-independent", "H1/"+fam, w.Seq, "step %d reported routed but %s differs from a fresh run of the same provider on the user's original objects for this step alone: %s", k, gk, d)
 		}
 	}
@@ -162,7 +162,7 @@ func specJSON(o client.Object) string {
 	return string(b)
 }
 
-func (o *diffOracle) differ(live, fresh client.Object) string {
+func (o *diffOracle) differ(live, fresh client.Object, strategyMatches []v1beta1.HttpRouteMatch) string {
 	if live == nil || fresh == nil {
 		if live == nil && fresh == nil {
 			return ""
@@ -187,6 +187,10 @@ func (o *diffOracle) differ(live, fresh client.Object) string {
 				for j := range hr.Spec.Rules[i].BackendRefs {
 					if hr.Spec.Rules[i].BackendRefs[j].Weight == nil {
 						hr.Spec.Rules[i].BackendRefs[j].Weight = &one // Gateway API: an unspecified weight is 1
+					}
+					if len(strategyMatches) > 0 && string(hr.Spec.Rules[i].BackendRefs[j].Name) == o.tr.stableSvc {
+						// match step: the weight of the stable backend is not part of the step (documented: it is reset, the original value is not kept)
+						hr.Spec.Rules[i].BackendRefs[j].Weight = &one
 					}
 				}
 			}
